@@ -153,14 +153,12 @@ def declared_enzyme(S, name, activity):
     was *declared*, not what the constructor stored."""
     e = S.enzyme(name, activity)
     v, num, den = R.parse_concentration(activity)
-    if (num, den) == ('U', 'g'):
-        v = R.round_conc(v)    # a parsed concentration is kept to the internal precision (significant digits below 1)
-    else:
-        # mass per activity: the activity is the quotient of the two stated quantities ('1 mg/7 U' is 7 U/mg exactly), not
-        # the reciprocal of a rounded ratio
-        mass, _, act = activity.partition('/')
-        act = act if ' ' in act else '1 ' + act
-        v = R.parse_quantity(act)[0] / R.parse_quantity(mass)[0]
+    # the activity is the quotient of the two stated quantities ('1 mg/7 U' is 7 U/mg exactly, '1 U/3 g' a third of a unit per
+    # gram), not a ratio rounded to ten digits or its reciprocal (fixes b84114b, 53b321c)
+    over, _, under = activity.partition('/')
+    under = under if ' ' in under else '1 ' + under
+    act, mass = (over, under) if (num, den) == ('U', 'g') else (under, over)
+    v = R.parse_quantity(act)[0] / R.parse_quantity(mass)[0]
     e._pv_sa = float(f"{v:.12g}")      # one activity has one value however it is spelt (twelve digits)
     return e
 
